@@ -340,12 +340,6 @@ def closedExcCalls (e : Nat) : List OCall :=
   [.error .closed (.exc e), .error .welcome (.exc e), .error .code (.exc e),
    .error .key (.exc e), .error .verifier (.exc e), .error .versions (.exc e), .recvFire (.exc e)]
 
-theorem relW_closed {h : Store} {w w' : Observer.W} (R : RelW h w) (hc : w'.closed = true) :
-    RelW (h.set "_closed" (.bool true)) w' := by
-  refine ⟨by simp [get_set, hc], ?_, R.recv.imp fun _ hh => by simpa [get_set] using hh,
-    R.boss.imp fun _ hh => by simpa [get_set] using hh⟩
-  intro o; obtain ⟨i, hi⟩ := R.os o; exact ⟨i, by cases o <;> simpa [get_set, osAttr] using hi⟩
-
 /-- `closed(result)`, result not an exception (e.g. "happy") = `W.closedOk`: `_closed` is set; the closed observer
     gets `fire_if_not_fired(result)`; the five event observers get `error(Failure(WormholeClosed(result)))` in the
     order welcome, code, key, verifier, versions; then the sequence observer gets `fire(` the same Failure `)` -/
@@ -394,6 +388,41 @@ theorem deferred_close_observer_first (rets : Nat → Val) (fuel : Nat) (h : Sto
   w_open R
   obs_eval [tbl_DeferredWormhole, m_DeferredWormhole_close, h6, envO, envOR, encO, osAttr]
 
+/-! ## façade → observers: a recorded observer call, dispatched by its NAME and arguments to the observer's body -/
+
+/-- Every call the façade records on a one-shot observer (`encO oc`: attribute, method name, arguments): running
+    the body OF THAT NAME from `tbl_OneShotObserver` with those arguments on the observer's heap gives exactly the
+    observer component and the queue of `applyO n w oc` — the function the façade theorems use for the model side.
+    (`error` is only ever called with a `Failure`: `closedOkCalls`/`closedExcCalls`.) -/
+theorem ocall_oneshot (rets : Nat → Val) (fuel : Nat) (w : Observer.W) (o : Observer.OS) (ho : Store) (n : Nat)
+    (R : RelOS ho (w.os o) n) (oc : OCall)
+    (htgt : oc = .whenFired o ∨ (∃ r, oc = .fireIfNotFired o r) ∨ (∃ f, oc = .error o f ∧ f.isFailure = true)) :
+    let out := exec (fuel + 3) (envO rets) tbl_OneShotObserver (encO oc).meth (encO oc).args ho
+    ∃ n' cs, AgreeOS out n' "callback" w.eq cs ((applyO n w oc).os o, (applyO n w oc).eq) := by
+  rcases htgt with rfl | ⟨r, rfl⟩ | ⟨f, rfl, hf⟩
+  · have h := (oneshot_when_fired rets (fuel + 1) ho (w.os o) n R w.eq).1
+    exact ⟨n + 1, _, by simpa [applyO, Observer.W.setOS, encO] using h⟩
+  · have h := oneshot_fire_if_not_fired rets fuel ho (w.os o) n R w.eq r
+    exact ⟨n, _, by simpa [applyO, Observer.W.setOS, encO] using h⟩
+  · have h := oneshot_error rets (fuel + 1) ho (w.os o) n R w.eq f hf
+    exact ⟨n, _, by simpa [applyO, Observer.W.setOS, Observer.W.errorOS, encO, hf] using h⟩
+
+/-- the same for the sequence observer (`when_next_event()`, `fire(x)`) -/
+theorem ocall_seq (rets : Nat → Val) (fuel : Nat) (w : Observer.W) (hs : Store) (n : Nat)
+    (R : RelSeq hs w.received n) (oc : OCall) (htgt : oc = .whenNextEvent ∨ ∃ r, oc = .recvFire r) :
+    let out := exec (fuel + 1) (envO rets) tbl_SequenceObserver (encO oc).meth (encO oc).args hs
+    ∃ n' cs, AgreeSeq out n' w.eq cs ((applyO n w oc).received, (applyO n w oc).eq) := by
+  rcases htgt with rfl | ⟨r, rfl⟩
+  · have h := (seq_when_next_event rets fuel hs w.received n R w.eq).1
+    exact ⟨n + 1, _, by simpa [applyO, Observer.W.setRecv, encO] using h⟩
+  · by_cases hf : r.isFailure = true
+    · have h := seq_fire_failure rets fuel hs w.received n R w.eq r hf
+      exact ⟨n, _, by simpa [applyO, Observer.W.setRecv, encO] using h⟩
+    · obtain ⟨v, rfl⟩ : ∃ v, r = .val v := by
+        cases r <;> simp_all [Observer.Res.isFailure]
+      have h := seq_fire_value rets fuel hs w.received n R w.eq v
+      exact ⟨n, _, by simpa [applyO, Observer.W.setRecv, encO] using h⟩
+
 /-! ## EventualQueue -/
 
 /-- `eventually(d.<m>, x)` = `EQ.eventually`: the call is appended to `_calls` (as `(f, args, kwargs)`, `*args` and
@@ -416,6 +445,22 @@ theorem eq_eventually (rets : Nat → Val) (hrets : ∀ k, (rets k).truthy = tru
     obs_eval [tbl_EventualQueue, m_EventualQueue_eventually, hcalls, htv, htt, hclock, envO, Observer.EQ.eventually, hq,
       callLaterTurn, bm, selfV]
     refine ⟨?_, ?_, ⟨rets 0, ?_, ?_⟩, ⟨i, ?_⟩⟩ <;> simp [get_set, List.zip_append hlen, encEntry, bm, hrets, *]
+
+/-- observers → queue, every length: handing a list of scheduled calls (what an `AgreeOS` / `AgreeSeq` conclusion
+    lists as `out.calls`) one after the other to the body of `eventually` leaves the queue's heap related to the
+    model queue `cs.foldl EQ.eventually q` — the very expression the observer theorems state for the model -/
+theorem eq_eventually_all (rets : Nat → Val) (hrets : ∀ k, (rets k).truthy = true) (fuel : Nat)
+    (mcs : List (String × Observer.Call)) (h : Store) (ms : List String) (q : Observer.EQ) (R : RelEQ h ms q) :
+    RelEQ
+      (mcs.foldl (fun h mc => (exec (fuel + 1) (envO rets) tbl_EventualQueue "eventually"
+        [bm (dfr mc.2.d) mc.1, .tuple [encRes mc.2.res], .dict []] h).heap) h)
+      (ms ++ mcs.map (·.1)) ((mcs.map (·.2)).foldl Observer.EQ.eventually q) := by
+  induction mcs generalizing h ms q with
+  | nil => simpa using R
+  | cons mc rest ih =>
+    have h1 := (eq_eventually rets hrets fuel h ms q R mc.1 mc.2).1
+    have h2 := ih _ _ _ h1
+    simpa [List.append_assoc] using h2
 
 /-- `fire_eventually(value)`: a new Deferred `n` is allocated and returned, and `self.eventually(d.callback, value)` is
     the one call made -/
@@ -598,3 +643,6 @@ end WV.Props.PyIRObsC18
 #print axioms WV.Props.PyIRObsC18.eq_turn_reentrant_defers
 #print axioms WV.Props.PyIRObsC18.delegated_pass_through
 #print axioms WV.Props.PyIRObsC18.delegated_got_key
+#print axioms WV.Props.PyIRObsC18.eq_eventually_all
+#print axioms WV.Props.PyIRObsC18.ocall_oneshot
+#print axioms WV.Props.PyIRObsC18.ocall_seq
